@@ -12,7 +12,9 @@ Obs == ndJsonDeserialize("tlshs_obs.ndjson")
 
 One(kind, facts) == IF kind = "ok" THEN {} ELSE {facts}
 Problems(o) == CASE Prop = "C24" -> IF Judge24(o) = "ok" THEN {} ELSE {Facts24(o)}
-                 [] Prop = "C31" -> IF Judge31(o) = "ok" THEN {} ELSE {Facts31(o)}
+                 [] Prop = "C31" -> IF "times" \in DOMAIN o       \* an automatic-rotation history
+                                    THEN (IF Judge31A(o) = "ok" THEN {} ELSE {Facts31A(o)})
+                                    ELSE IF Judge31(o) = "ok" THEN {} ELSE {Facts31(o)}
                  [] Prop = "C27" -> IF "steps" \in DOMAIN o THEN Problems27H(o)       \* a multi-step history
                                     ELSE IF Judge27(o) = "ok" THEN {} ELSE {Facts27(o)}
                  [] Prop = "C27H" -> Problems27H(o)
